@@ -45,6 +45,25 @@ CLAIMED = {
              "inserted/removed again. The pinned snapshot's model (fresh close flag, F3) is refuted by a kernel-checked witness.",
         ref="4/C11", tech="Coq proof (invariant + frame lemma) + extracted-model correspondence",
         note="as C06; the residual window inside one poll on a multi-threaded runtime is unmodelled."),
+    "C08": dict(
+        text="Theorems: decode(encode x) = x for every numeric width, bool, Vec<u8>, String (under from_utf8 validity), "
+             "the entry header, and whole entries (value then key, recorded lengths = bytes written, checksum over exactly "
+             "those bytes) under the codec round-trip hypothesis for zstd/lz4; a too-small destination is an error and "
+             "Buffer::push rejects as a whole / commits exactly; strict prefixes fail to decode. Correspondence: real "
+             "Code::encode/decode, Buffer::push, EntryHeader, EntryDeserializer vs the extracted model, XXH64 vs an "
+             "independent implementation.",
+        ref="4/C08", tech="Coq proof (round-trip laws) + extracted-model correspondence",
+        note="zstd/lz4 round-trip is a hypothesis (exercised through the implementation's own decoder); bincode (serde "
+             "feature) not modelled; needs hook H1."),
+    "C10": dict(
+        text="Theorem: for every log size and every sequence of open/append/restart sessions within capacity, the next "
+             "open returns every tombstone ever appended and resumes right behind the last one (the n-th tombstone sits "
+             "in slot n). The pinned snapshot's model (F5) is refuted by a kernel-checked witness. Correspondence: real "
+             "TombstoneLog on an FsDevice across restart cycles, grid of delete counts around page boundaries, "
+             "beyond-capacity wraps compared with the model.",
+        ref="4/C10", tech="Coq proof (layout invariant over sessions) + extracted-model correspondence",
+        note="drives TombstoneLog directly (hook H1); suppression of entries by tombstones during recovery is covered "
+             "with the recovery model (C04) when built."),
     "C17": dict(
         text="Theorem: for an arbitrary hash function, a lookup returns only a record whose key equals the key "
              "asked for, and colliding keys are both stored (generic shard/cache model). Correspondence with "
